@@ -5,6 +5,7 @@ import (
 	"errors"
 	"fmt"
 	"io"
+	"math"
 	"net"
 	"strconv"
 	"strings"
@@ -109,6 +110,11 @@ func toBytes(f net.Addr, fwdType int) []byte {
 
 	default:
 		logrus.Error("Unknown address type")
+		return nil
+	}
+
+	if len(addrStr) > math.MaxUint16 {
+		logrus.Error("Address too long")
 		return nil
 	}
 
@@ -339,6 +345,10 @@ func StartPFClient(forward *Forward, muxer *tubes.Muxer, pfType int) {
 	}
 
 	byteAddr := toBytes(addr, pfType)
+	if byteAddr == nil {
+		logrus.Error("PF: address cannot be encoded")
+		return
+	}
 	_, err = pfControlTube.Write(byteAddr)
 	if err != nil {
 		logrus.Errorf("PF: Can't write in the PF control tube. %v", err)
